@@ -548,7 +548,8 @@ func (a *Account) GetAssetIdState(id common.Hash) (string, error) {
 		return "", err
 	}
 
-	if val == nil {
+	// An empty value means deleted, the trie can't store it. It must read the same before and after the trie is updated
+	if len(val) == 0 {
 		return "", types.ErrAssetIdNotExist
 	}
 	return string(val), nil
